@@ -39,8 +39,15 @@ typedef FaultMM HMM;
 // run-time override of HashTraits::GetLogStartBucketCount (0 = none): a traits class that asks for an absurd first table
 static size_t g_logStartOverride = 0;
 
-struct NoExtra : public momo::HashSetSettings { static const momo::ExtraCheckMode extraCheckMode = momo::ExtraCheckMode::nothing; };
-struct NoExtraMap : public momo::HashMapSettings { static const momo::ExtraCheckMode extraCheckMode = momo::ExtraCheckMode::nothing; };
+// fault builds (C11): MOMO_CHECK throws std::invalid_argument instead of asserting, so that a check that fails inside pvAdd
+// (pvAddGrow's sizing loop, HashSet.h:1135-1142) is reported with the insertion that provoked it instead of aborting the run
+#if VF_FAULTS
+#define VF_CHECK_MODE momo::CheckMode::exception
+#else
+#define VF_CHECK_MODE momo::CheckMode::bydefault
+#endif
+struct NoExtra : public momo::HashSetSettings { static const momo::CheckMode checkMode = VF_CHECK_MODE; static const momo::ExtraCheckMode extraCheckMode = momo::ExtraCheckMode::nothing; };
+struct NoExtraMap : public momo::HashMapSettings { static const momo::CheckMode checkMode = VF_CHECK_MODE; static const momo::ExtraCheckMode extraCheckMode = momo::ExtraCheckMode::nothing; };
 
 template<typename Key, typename HashBucket, bool tFast, unsigned tLogStart>
 struct FamTraits : public momo::HashTraits<Key, HashBucket>
@@ -195,6 +202,22 @@ static size_t maxLogOf()
 	return K;
 }
 
+// log2 of the bucket count pvAddGrow asks Buckets::Create for (HashSet.h:1132-1142): pvGetNewLogBucketCount(), raised while the
+// capacity of that size does not exceed the count (a table overloaded by refused growths); the model's `growLog`
+template<typename HS>
+static size_t growLogOf(HS& s)
+{
+	const auto& tr = s.GetHashTraits();
+	size_t nl = s.pvGetNewLogBucketCount();
+	size_t cap = tr.CalcCapacity(size_t{1} << nl, HS::bucketMaxItemCount);
+	for (int guard = 0; cap <= s.GetCount() && guard < 40; ++guard) {
+		size_t next = tr.CalcCapacity(size_t{1} << (nl + 1), HS::bucketMaxItemCount);
+		if (next <= cap) break;	// MOMO_CHECK(nextCapacity > newCapacity)
+		++nl; cap = next;
+	}
+	return nl;
+}
+
 // width of the packed (pointer, state) field of BucketLimP4 (0 for the other bucket classes)
 template<typename B> static auto ptrStateBits(int) -> decltype(size_t{B::PtrState::bitCount}) { return B::PtrState::bitCount; }
 template<typename B> static size_t ptrStateBits(long) { return 0; }
@@ -308,17 +331,35 @@ static void runConfig(Ctx& c, Rng& rng, const Cfg& cfg, unsigned fam, unsigned k
 			std::reverse(script.begin(), script.end());
 			c.stats.count("crowded_open_table_runs");
 		}
+		// scripted prologue (C11, fault builds): PERSISTENT REFUSAL. Fresh keys are inserted; once the table is at its capacity
+		// EVERY bucket array pvAddGrow asks for is refused (phase 1), insertion after insertion, so that the table is overloaded:
+		// the count passes the capacity of the next bucket count and of the one after it (unlimited buckets, LimP<15>), or every
+		// bucket is full (the other limited kinds: `Hash table is full` is the only legal failure, and only then). After every
+		// insertion: it succeeded, or answered 'full' with literally every bucket full. Then memory is back (phase 2): the next
+		// insertion must succeed and grow the table to a capacity above the count, all keys found. The model must reproduce
+		// count, capacity, generations and layout after every one of these insertions.
+		struct Persist { int phase = 0; uint32_t nextKey = 0; unsigned steps = 0, refused = 0, fulls = 0; size_t nl0 = 0, capNext = 0, capNext2 = 0, target = 0; bool armed = false; } persist;
+		unsigned extraOps = 0;
+#if VF_FAULTS
+		{
+			const std::string kd = cfg.kind;
+			const bool kindOK = kd == "UnlimP" || kd == "LimP" || kd == "LimP1" || kd == "LimP4" || (kd == "Open2N2" && cfg.n == 3);
+			if (script.empty() && kindOK && runNo % 4 == 1) { persist.phase = 1; persist.nextKey = keyRange + 7000; c.stats.count("persist.runs"); }
+		}
+#endif
 		const unsigned totalOps = nOps + (unsigned)script.size();
-		for (unsigned step = 0; step < totalOps; ++step) {
+		for (unsigned step = 0; step < totalOps + extraOps; ++step) {
 			unsigned r = (unsigned)rng.below(100);
 			uint32_t k = (uint32_t)rng.below(keyRange);
 			long forcedCopy = -1;
+			int mode = 0;	// 2 = persistent refusal: refuse the bucket array; 3 = memory is back
 			if (!script.empty()) { r = 0; k = script.back().first; forcedCopy = script.back().second; script.pop_back(); }
+			else if (persist.phase != 0) { r = 0; k = persist.nextKey++; mode = persist.phase == 1 ? 2 : 3; ++extraOps; }
 			std::string op, res;
 			size_t gensBefore = 0;
 			{ std::vector<GenInfo> g; layoutSum<Ad>(A.hs(), &g, nullptr); gensBefore = g.size(); }
 #if VF_FAULTS
-			if (forcedCopy < 0 && gensBefore >= 2 && rng.chance(3, 4)) {
+			if (forcedCopy < 0 && mode == 0 && gensBefore >= 2 && rng.chance(3, 4)) {
 				// several generations coexist: push towards the next growth with fresh keys (C11: repeated failures)
 				r = 0;
 				for (unsigned t = 0; t < 8 && refA.count(k); ++t) k = (uint32_t)rng.below(keyRange);
@@ -333,9 +374,25 @@ static void runConfig(Ctx& c, Rng& rng, const Cfg& cfg, unsigned fam, unsigned k
 				std::string ftoks;
 				bool armG = false, armA = false, armC = false, armH = false;
 				// the bucket array the next growth would allocate is recognised by its size
-				const size_t growSize = HS::Buckets::pvGetBufferSize(A.hs().pvGetNewLogBucketCount());
+				const size_t growLog = growLogOf(A.hs());
+				const size_t growSize = HS::Buckets::pvGetBufferSize(growLog);
+				const size_t capBefore = A.hs().GetCapacity(), bucketsBefore = A.hs().mBuckets ? A.hs().mBuckets->GetCount() : 0;
+				if (growLog != A.hs().pvGetNewLogBucketCount() && countBefore >= capBefore) c.stats.count("grow.target_above_next_size");
 #if VF_FAULTS
-				if (forcedCopy >= 0) { armC = true; ec().copyCountdown = forcedCopy; }
+				if (mode == 2) {
+					if (A.hs().mBuckets != nullptr && countBefore >= capBefore) {
+						if (!persist.armed) {
+							persist.armed = true; persist.nl0 = A.hs().pvGetNewLogBucketCount();
+							const auto& tr = A.hs().GetHashTraits();
+							persist.capNext = tr.CalcCapacity(size_t{1} << persist.nl0, HS::bucketMaxItemCount);
+							persist.capNext2 = tr.CalcCapacity(size_t{1} << (persist.nl0 + 1), HS::bucketMaxItemCount);
+							persist.target = persist.capNext2 + 2;
+						}
+						armG = true; mm().refuseSize = growSize;
+					}
+				}
+				else if (mode == 3) { /* no fault: memory is back */ }
+				else if (forcedCopy >= 0) { armC = true; ec().copyCountdown = forcedCopy; }
 				else if (gensBefore >= 2 && (!relocatable || !cfg.fast) && rng.chance(4, 5)) {
 					// several generations coexist: keep the migration failing early so that they survive until the next growth
 					if (!relocatable && (cfg.fast || rng.chance(1, 2))) { armC = true; ec().copyCountdown = 1 + (long)rng.below(3); }
@@ -363,7 +420,7 @@ static void runConfig(Ctx& c, Rng& rng, const Cfg& cfg, unsigned fam, unsigned k
 				// no table yet and the traits ask for a first table beyond the largest legal bucket count: HashSetBuckets::Create must
 				// throw std::length_error and the container stays as it was (empty, no buckets); the next insertion builds a normal table
 				bool absurdStart = false;
-				if (forcedCopy < 0 && A.hs().mBuckets == nullptr && !armG && !armA && !armC && !armH && maxLog + 1 < 64 && rng.chance(1, 2)
+				if (forcedCopy < 0 && mode == 0 && A.hs().mBuckets == nullptr && !armG && !armA && !armC && !armH && maxLog + 1 < 64 && rng.chance(1, 2)
 					&& A.hs().GetHashTraits().CalcCapacity(size_t{1} << (maxLog + 1), HS::bucketMaxItemCount) > 0) {
 					absurdStart = true; g_logStartOverride = maxLog + 1;
 					ftoks += fmt(" nl=%zu", maxLog + 1);
@@ -374,6 +431,13 @@ static void runConfig(Ctx& c, Rng& rng, const Cfg& cfg, unsigned fam, unsigned k
 				catch (const std::bad_alloc&) { out = "E:throw"; }
 				catch (const std::runtime_error& e) { out = std::string(e.what()) == "copy" ? "E:throw" : "E:runtime"; }
 				catch (const std::domain_error&) { out = "E:user"; threwHashAtLookup = true; }
+				catch (const std::invalid_argument& e) {
+					// (fault builds only: exception check mode) inserting a key by value is never a misuse: a check inside pvAdd failed
+					out = "E:invalid_argument";
+					c.fail("C11 insert: %s: Insert of the %s key %u answered std::invalid_argument (%s) - count %zu, capacity %zu, %zu buckets, %u growths refused in a row before; "
+						"a single-element insertion must succeed unless every bucket on the probe path is full",
+						suiteName.c_str(), present ? "present" : "absent", k, e.what(), countBefore, capBefore, bucketsBefore, persist.refused);
+				}
 				(void)hashCallsBefore;
 				bool firedG = mm().refused(growSize), firedA = mm().refusedOther(growSize), firedC = ec().firedCopy, firedH = hc().fired;
 				mm().disarm(); ec().copyCountdown = -1; ec().firedCopy = false; hc().throwCountdown = -1; hc().fired = false;
@@ -413,6 +477,46 @@ static void runConfig(Ctx& c, Rng& rng, const Cfg& cfg, unsigned fam, unsigned k
 				if (firedG && !firedA && !firedC && !before.empty() && out == "E:throw") c.fail("C11 fallback: %s insert %u failed with bad_alloc although a table exists", suiteName.c_str(), k);
 				op = fmt("ins %u %u%s", k, v, ftoks.c_str()); res = out;
 				if (after.size() >= 2 || gensBefore >= 2) c.stats.nontrivial(fmt("%s#%u", suiteName.c_str(), step));
+				if (mode == 2) {
+					++persist.steps;
+					const size_t cnt = A.hs().GetCount();
+					if (armG) {
+						c.stats.nontrivial(fmt("%s#%u", suiteName.c_str(), step));	// an insertion right after / under a refused growth
+						if (firedG) { ++persist.refused; c.stats.count("persist.refused_growths"); } else c.stats.count("persist.predicted_array_not_requested");
+						if (cnt > persist.capNext) c.stats.count("persist.insertions_with_count_above_next_capacity");
+						if (cnt > persist.capNext2) c.stats.count("persist.insertions_with_count_above_second_next_capacity");
+					}
+					if (out == "E:runtime") {
+						// 'Hash table is full' is legal only if literally every bucket of the (only) bucket array is full
+						++persist.fulls; c.stats.count("persist.full_answers");
+						size_t notFull = 0;
+						if (A.hs().mBuckets != nullptr) for (size_t i = 0; i < A.hs().mBuckets->GetCount(); ++i) if (!(*A.hs().mBuckets)[i].IsFull()) ++notFull;
+						if (notFull != 0) c.fail("C11 persistent refusal: %s: insert %u answered 'Hash table is full' although %zu of %zu buckets are not full (count %zu, %u growths refused in a row)",
+							suiteName.c_str(), k, notFull, bucketsBefore, cnt, persist.refused);
+					}
+					else if (out != "1") c.fail("C11 persistent refusal: %s: insert of the absent key %u answered %s with the bucket array refused for the %u-th time in a row (count %zu, capacity %zu, %zu buckets): "
+						"it must succeed in the existing table unless every bucket on the probe path is full", suiteName.c_str(), k, out.c_str(), persist.refused, countBefore, capBefore, bucketsBefore);
+					const bool grew = armG && (after.size() != before.size() || (!after.empty() && !before.empty() && after[0].L != before[0].L));
+					if (persist.steps % 8 == 0) fullCheck("persistent refusal");
+					if (grew) { persist.phase = 0; c.stats.count("persist.abandoned_table_grew"); }
+					else if (persist.fulls >= 2 || (persist.armed && cnt >= persist.target) || persist.steps > 700) persist.phase = 2;
+				}
+				else if (mode == 3) {
+					persist.phase = 0;
+					const size_t cnt = A.hs().GetCount(), cap = A.hs().GetCapacity();
+					if (out != "1")
+						c.fail("C11 overloaded growth: %s: after %u growths refused in a row (count %zu, capacity %zu, %zu buckets; the next size 2^%zu has capacity %zu) memory is back, "
+							"but insert of the absent key %u answered %s", suiteName.c_str(), persist.refused, countBefore, capBefore, bucketsBefore, persist.nl0, persist.capNext, k, out.c_str());
+					else if (countBefore >= capBefore && (cap <= countBefore || cnt > cap || after.empty() || before.empty() || after[0].L <= before[0].L))
+						c.fail("C11 overloaded growth: %s: after %u refused growths (count %zu, capacity %zu, %zu buckets) insert %u succeeded but the table did not grow to a capacity above the count: count %zu, capacity %zu",
+							suiteName.c_str(), persist.refused, countBefore, capBefore, bucketsBefore, k, cnt, cap);
+					else if (countBefore >= capBefore) {
+						c.stats.count("persist.recovered_growths");
+						c.stats.count(fmt("persist.growth_target_steps_above_next_size_%zu", after[0].L - persist.nl0));
+						c.stats.nontrivial(fmt("%s#%u", suiteName.c_str(), step));
+					}
+					fullCheck("memory back after persistent refusal");
+				}
 			}
 			else if (r < 62) {
 				auto f = A.find(k);
@@ -522,7 +626,7 @@ static void runConfig(Ctx& c, Rng& rng, const Cfg& cfg, unsigned fam, unsigned k
 			s.op(op); s.res(res + tail());
 			c.stats.evaluations++;
 			if (history.size() < 160) history += op + "; ";
-			if (step % 16 == 15 || step + 1 == nOps) fullCheck(op.c_str());
+			if (step % 16 == 15 || step + 1 == nOps || step + 1 == totalOps + extraOps) fullCheck(op.c_str());
 			if (crowding && !script.empty()) {
 				// a search bound that is too small may be repaired by the very next insertion from the same start bucket:
 				// during the crowding prologue every key of the reference is looked up after EVERY insertion
